@@ -1,5 +1,5 @@
 """C03  sample_count, sample_size and threads fix the number of calls exactly."""
-from lib.facts import direct_place, const_int, origins, place_fields, norm
+from lib.facts import direct_place, const_int, origins, place_fields, norm, nophi
 from lib import tables
 from .sampling import Sampling, PAR_EXTEND
 from .common import Recorder
@@ -226,7 +226,7 @@ def r03_3(ctx, S, prog, crate):
             nx = [c for c in b.live_calls() if c.bb in lp["body"] and c.callee.endswith("::next") and b.innermost_loop(c.bb)["header"] == lp["header"]]
             if nx:
                 srcs = b.prov.op_src(nx[0].args[0])
-                ctx.check(any(z.kind == "call" and z.a == "std::slice::from_raw_parts" for z in srcs), "R03.3", [b.path, "iterates-this-rounds-raw-samples"],
+                ctx.check(any(z.kind == "call" and z.a == "std::slice::from_raw_parts" for z in srcs) and nophi(srcs), "R03.3", [b.path, "iterates-this-rounds-raw-samples"],
                           "the post-processing loop does not iterate the slice of this round's raw samples", nx[0].line())
 
 
